@@ -1,6 +1,45 @@
+#[macro_use]
+extern crate gluon_vm;
+
+mod common;
+mod conc;
+mod host;
+
+use common::*;
+
+fn usage() -> ! {
+    eprintln!("usage: gvh <command> ...");
+    std::process::exit(2)
+}
+
+fn cmd_run(args: &[String]) {
+    let mut s = Settings::default();
+    let mut file = None;
+    for a in args {
+        match a.as_str() {
+            "--io" => s.run_io = true,
+            "--noprelude" => s.prelude = false,
+            "--noopt" => s.optimize = false,
+            f => file = Some(f.to_string()),
+        }
+    }
+    let src = std::fs::read_to_string(file.expect("file")).unwrap();
+    let vm = new_vm(&s);
+    match run_any(&vm, "probe", &src) {
+        Ok((v, t)) => println!("OK {} : {}", v, t),
+        Err(e) => println!("ERR {}", e),
+    }
+}
+
 fn main() {
-    let vm = gluon::new_vm();
-    use gluon::ThreadExt;
-    let r = vm.run_expr::<i32>("t", "1 + 2");
-    println!("{:?}", r.map(|x| x.0));
+    let args: Vec<String> = std::env::args().collect();
+    if args.len() < 2 {
+        usage();
+    }
+    let rest = &args[2..];
+    match args[1].as_str() {
+        "run" => cmd_run(rest),
+        "conc" => conc::cmd(rest),
+        _ => usage(),
+    }
 }
